@@ -523,6 +523,142 @@ int cmdC10(int argc, char** argv) {
 	printf("{\"cases\":%zu,\"crashes\":%zu}\n", cases.size(), crashes);
 	return 0;
 }
+// ---------------------------------------------------------------- the partition API as a machine (PartApi.tla)
+// c10-api <cases.ndjson> <out.ndjson>: every exported call history on a skinned fan, in FO3, SK and SSE
+int cmdApi(int argc, char** argv) {
+	if (argc < 3) return 2;
+	auto lines = readLines(argv[1]);
+	std::string outPath = argv[2];
+	{ Out trunc(outPath); }
+	const size_t NT = 4;
+	size_t chunk = 40, nchunks = (lines.size() + chunk - 1) / chunk;
+	size_t crashes = runForkedCases(
+		nchunks, outPath, 300,
+		[&](size_t ci, std::string& out) {
+			for (size_t k = ci * chunk; k < std::min(lines.size(), (ci + 1) * chunk); k++) {
+				JV rec = jparse(lines[k]);
+				for (const char* ver : {"FO3", "SK", "SSE"}) {
+					NifFile made;
+					made.Create(versionByName(ver));
+					NiShape* shape = buildShape(made, "S", NT + 2, fan(NT), true);
+					if (!shape) continue;
+					skinShape(made, shape, 2, [](uint16_t v) {
+						std::vector<std::pair<int, float>> w;
+						w.emplace_back(int(v % 2), 1.0f);
+						return w;
+					});
+					// the history runs on the model as a tool gets it: loaded from a file
+					std::unique_ptr<NifFile> nif(new NifFile());
+					if (loadFromString(*nif, saveToString(made, false, false)) != 0) continue;
+					JArr ops, obs;
+					auto identities = [&](NiShape* sh) {
+						std::vector<Vector3> verts;
+						std::vector<Triangle> tris;
+						nif->GetVertsForShape(sh, verts);
+						sh->GetTriangles(tris);
+						std::vector<long long> ids;
+						for (auto& t : tris) {
+							long long a[3] = {-1, -1, -1};
+							uint16_t p[3] = {t.p1, t.p2, t.p3};
+							for (int q = 0; q < 3; q++)
+								if (p[q] < verts.size()) a[q] = llround(verts[p[q]].x);
+							std::sort(a, a + 3);
+							ids.push_back(a[1]); // (0, k, k+1): the middle one
+						}
+						return ids;
+					};
+					bool stop = false;
+					for (auto& op : rec["ops"].a) {
+						if (stop) break;
+						NiShape* sh = byName(*nif, "S");
+						if (!sh) { stop = true; break; }
+						const std::string kd = op["k"].s;
+						JObj jo, ob;
+						jo.add("k", kd);
+						std::vector<int> tpGot, bodies;
+						bool got = false;
+						if (kd == "set") {
+							NiVector<BSDismemberSkinInstance::PartitionInfo> pinfo;
+							std::vector<int> tp;
+							nif->GetShapePartitions(sh, pinfo, tp);
+							auto ids = identities(sh);
+							long long np = (long long) pinfo.size(), top = -1;
+							for (auto id : ids) top = std::max(top, id);
+							const std::string p = op["p"].s;
+							tp.assign(ids.size(), 0);
+							for (size_t j = 0; j < ids.size(); j++) {
+								if (p == "alt") tp[j] = int(ids[j] % 2);
+								else if (p == "newid") tp[j] = ids[j] == top ? int(np) : 0;
+								else if (p == "last") tp[j] = np >= 2 ? int(np - 1) : 0;
+								else if (p == "each") tp[j] = int(ids[j] - 1);
+							}
+							// one info per label in use, the new ones with body part ids of their own
+							int maxl = -1;
+							for (auto l : tp) maxl = std::max(maxl, l);
+							while ((int) pinfo.size() <= maxl) {
+								BSDismemberSkinInstance::PartitionInfo pi;
+								pi.partID = uint16_t(60 + pinfo.size());
+								pi.flags = PF_EDITOR_VISIBLE;
+								pinfo.push_back(pi);
+							}
+							JArr pids;
+							for (auto& pi : pinfo) pids.add((long long) pi.partID);
+							jo.add("p", p).add("np", np).raw("pids", pids.done());
+							if (!ids.empty()) nif->SetShapePartitions(sh, pinfo, tp);
+						}
+						else if (kd == "update") nif->UpdateSkinPartitions(sh);
+						else if (kd == "clean") nif->RemoveEmptyPartitions(sh);
+						else if (kd == "delv") {
+							// the vertex whose original number is v
+							std::vector<Vector3> verts;
+							nif->GetVertsForShape(sh, verts);
+							long long v = (long long) op["v"].n;
+							jo.add("v", v);
+							std::vector<uint16_t> idx;
+							for (size_t q = 0; q < verts.size(); q++)
+								if (llround(verts[q].x) == v) idx.push_back(uint16_t(q));
+							if (!idx.empty()) nif->DeleteVertsForShape(sh, idx);
+						}
+						else if (kd == "reload") {
+							std::unique_ptr<NifFile> re(new NifFile());
+							if (loadFromString(*re, saveToString(*nif, false, false)) != 0) { stop = true; break; }
+							nif = std::move(re);
+						}
+						else if (kd == "get") {
+							NiVector<BSDismemberSkinInstance::PartitionInfo> pinfo;
+							got = nif->GetShapePartitions(sh, pinfo, tpGot);
+							for (auto l : tpGot) bodies.push_back(l >= 0 && size_t(l) < pinfo.size() ? int(pinfo[size_t(l)].partID) : -1);
+						}
+						sh = byName(*nif, "S");
+						ops.raw(jo.done());
+						if (!sh) {
+							// the shape is gone (every triangle deleted): nothing more to observe
+							ob.raw("ids", "[]").raw("tp", "[]").raw("bodies", "[]").add("got", false).raw("t", "{}");
+							obs.raw(ob.done());
+							stop = true;
+							break;
+						}
+						ContentIds ids;
+						{
+							JArr ia;
+							for (auto id : identities(sh)) ia.add(id);
+							JObj ob2;
+							ob2.raw("ids", ia.done()).raw("tp", intsJson(tpGot)).raw("bodies", intsJson(bodies)).add("got", got).raw("t", projectShape(*nif, sh, ids));
+							obs.raw(ob2.done());
+						}
+					}
+					JObj ev;
+					ev.add("e", "partapi").add("case", (long long) k).add("ver", ver).add("nt", (long long) NT).add("boneLimit", boneLimitOf(nif->GetHeader().GetVersion()));
+					ev.raw("ops", ops.done()).raw("obs", obs.done());
+					out += ev.done() + "\n";
+				}
+			}
+		},
+		[&](size_t ci, const std::string& why, FILE* out) { fprintf(out, "{\"e\":\"crash\",\"chunk\":%zu,\"why\":%s}\n", ci, J::str(why).s.c_str()); });
+	printf("{\"cases\":%zu,\"crashes\":%zu}\n", lines.size(), crashes);
+	return 0;
+}
+Reg r0("c10-api", cmdApi);
 Reg r1("c17-cases", cmdCases);
 Reg r2("c10-run", cmdC10);
 } // namespace
